@@ -333,7 +333,10 @@ func (d *Daemon) ContainerList(_ context.Context, opts apicontainer.ListOptions)
 		state, status, names := c.State, c.Status, append([]string(nil), c.Names...)
 		for _, f := range d.faults {
 			if f.Kind == FaultInventoryChange && f.Container == c.ID && k >= f.K {
-				state, status, names = ChangedState, ChangedStatus, []string{"/" + ChangedName(c.ID)}
+				names = []string{"/" + ChangedName(c.ID)}
+				if f.ErrKind != "rename" {
+					state, status = ChangedState, ChangedStatus
+				}
 				d.FaultsFired[FaultInventoryChange]++
 			}
 		}
